@@ -645,8 +645,8 @@ fill_yly_yd(
 		    !((wd_mask >> yd_get_wday(y, yd)) & 0b1U)) {
 			/* weekday is masked out */
 			continue;
-		} else if (!(md = yd_to_md(y, yd)).m) {
-			/* something's wrong again */
+		} else if (!(md = yd_to_md(y, yd)).m || md.m > 12U) {
+			/* something's wrong again, or no 366th day this year */
 			continue;
 		}
 		/* otherwise it's looking good */
